@@ -100,9 +100,9 @@ mutual
               | none => false)
           | none => true)
       -- substitute_len_field: the shift leaves the sizer room to count; validate_bound_shift: one shift per sizer
-      && (match k with
-          | .dyn s sh => decide ((sh : Int) < sizerMax s all) && sh == sizerShift s all
-          | _ => true)
+      && (match k.sizer? with
+          | some s => decide ((k.shift : Int) < sizerMax s all) && k.shift == sizerShift s all
+          | none => true)
       && pyRtMs all r (before ++ [.mk n t k])
   def pyRtArms : List Arm → Bool
     | [] => true
